@@ -34,6 +34,9 @@ type c01Cfg struct {
 	Cap       int          `json:"capacity"`
 	Consumers int          `json:"consumers"`
 	Retry     bool         `json:"retry"`
+	Batcher   bool         `json:"legacy_batcher"`
+	BMin      int64        `json:"batch_min_size,omitempty"`
+	BMax      int64        `json:"batch_max_size,omitempty"`
 	Script    []string     `json:"script"`
 	Plan      []crashPoint `json:"plan,omitempty"`
 }
@@ -56,22 +59,26 @@ type c01Inc struct {
 }
 
 type c01Life struct {
-	r       *simkit.Run
-	cfg     c01Cfg
-	plan    map[int]crashPoint
-	disk    *Disk
-	incs    []*c01Inc
-	cur     *c01Inc
-	nextID  int
-	payload map[int][]byte
-	acked   map[int]bool
-	final   map[int]bool
-	handed  map[int]int
-	trace   []string
-	viol    []simkit.Violation
-	crashes []string // shape of each crash site that fired
-	lifeLog []string
-	mu      sync.Mutex
+	r        *simkit.Run
+	cfg      c01Cfg
+	plan     map[int]crashPoint
+	disk     *Disk
+	incs     []*c01Inc
+	cur      *c01Inc
+	nextID   int
+	payload  map[int][]byte
+	acked    map[int]bool
+	final    map[int]bool
+	handed   map[int]int
+	recFinal map[string]bool // "req/idx" -> a hand-off holding the record completed with a final outcome
+	recOf    map[int]int     // request -> number of records
+	callSeq  map[string]int
+	inCall   map[string][]string // gate id -> records
+	trace    []string
+	viol     []simkit.Violation
+	crashes  []string // shape of each crash site that fired
+	lifeLog  []string
+	mu       sync.Mutex
 }
 
 func (l *c01Life) logf(f string, a ...any) { l.lifeLog = append(l.lifeLog, fmt.Sprintf(f, a...)) }
@@ -124,16 +131,33 @@ func (l *c01Life) startInc() {
 			if inc.Fenced() {
 				return errZombie
 			}
-			id := reqIDOf(ld)
-			b, _ := (&plog.ProtoMarshaler{}).MarshalLogs(ld)
+			recs := recordsOf(ld)
 			l.mu.Lock()
-			want, known := l.payload[id]
-			if !known || !bytes.Equal(b, want) {
-				l.failf("garbage", "payload", "incarnation %d handed over a payload that was never submitted (id %d, %d bytes)", ord, id, len(b))
+			if len(recs) == 0 {
+				l.failf("garbage", "payload", "incarnation %d handed over a payload without records", ord)
 			}
-			l.handed[id]++
+			for _, rc := range recs {
+				var rq, ix int
+				if _, err := fmt.Sscanf(rc, "%d/%d", &rq, &ix); err != nil || ix >= l.recOf[rq] {
+					l.failf("garbage", "payload", "incarnation %d handed over a record that was never submitted (%q)", ord, rc)
+				}
+				l.handed[rq]++
+			}
+			if !l.cfg.Batcher {
+				// without batching a hand-off is exactly one submitted request, byte for byte
+				id := reqIDOf(ld)
+				b, _ := (&plog.ProtoMarshaler{}).MarshalLogs(ld)
+				if want, known := l.payload[id]; !known || !bytes.Equal(b, want) {
+					l.failf("garbage", "payload", "incarnation %d handed over a payload that was never submitted (id %d, %d bytes)", ord, id, len(b))
+				}
+			}
+			sort.Strings(recs)
+			key := recs[0]
+			l.callSeq[key]++
+			gid := fmt.Sprintf("exp:%s#%d", key, l.callSeq[key])
+			l.inCall[fmt.Sprintf("%d|%s", ord, gid)] = recs
 			l.mu.Unlock()
-			v, ok := ci.gate.ParkCtx(fmt.Sprintf("exp:%03d", id), ctx.Done())
+			v, ok := ci.gate.ParkCtx(gid, ctx.Done())
 			if !ok {
 				return ctx.Err()
 			}
@@ -155,8 +179,17 @@ func (l *c01Life) startInc() {
 		rcfg.Multiplier = 1
 		rcfg.MaxElapsedTime = 0
 		set := exporter.Settings{ID: component.MustNewID("simexp"), TelemetrySettings: componenttest.NewNopTelemetrySettings(), BuildInfo: component.NewDefaultBuildInfo()}
-		exp, err := exporterhelper.NewLogs(context.Background(), set, struct{}{}, pusher,
-			exporterhelper.WithQueue(qcfg), exporterhelper.WithRetry(rcfg), exporterhelper.WithTimeout(exporterhelper.TimeoutConfig{Timeout: 0}))
+		opts := []exporterhelper.Option{exporterhelper.WithQueue(qcfg), exporterhelper.WithRetry(rcfg), exporterhelper.WithTimeout(exporterhelper.TimeoutConfig{Timeout: 0})}
+		if l.cfg.Batcher {
+			bc := exporterhelper.NewDefaultBatcherConfig()
+			bc.FlushTimeout = time.Second
+			bc.MinSize, bc.MaxSize = l.cfg.BMin, l.cfg.BMax
+			if err := bc.Validate(); err != nil {
+				panic("harness: invalid batcher config: " + err.Error())
+			}
+			opts = append(opts, exporterhelper.WithBatcher(bc))
+		}
+		exp, err := exporterhelper.NewLogs(context.Background(), set, struct{}{}, pusher, opts...)
 		if err != nil {
 			panic(err)
 		}
@@ -267,15 +300,14 @@ func (l *c01Life) answerOldest(outcome error) bool {
 		return false
 	}
 	id := ids[0]
-	num := strings.TrimPrefix(id, "exp:")
-	if j := strings.IndexByte(num, '#'); j >= 0 {
-		num = num[:j]
-	}
-	n, _ := strconv.Atoi(num)
 	if !l.cur.inc.Fenced() {
 		// the backend has answered a live incarnation: from now on the data is the backend's
 		if outcome == nil || consumererror.IsPermanent(outcome) || !l.cfg.Retry {
-			l.final[n] = true
+			l.mu.Lock()
+			for _, rc := range l.inCall[fmt.Sprintf("%d|%s", l.cur.ord, id)] {
+				l.recFinal[rc] = true
+			}
+			l.mu.Unlock()
 		}
 	}
 	l.logf("op@%d answer %s -> %s", l.cur.ord, id, simkit.ShortErr(outcome))
@@ -323,6 +355,7 @@ func (l *c01Life) run() {
 			id := l.nextID
 			ld, b := mkLogs(id)
 			l.payload[id] = b
+			l.recOf[id] = ld.LogRecordCount()
 			err := l.cur.exp.ConsumeLogs(context.Background(), ld)
 			ack := err == nil && !l.cur.inc.Fenced()
 			if ack {
@@ -386,6 +419,13 @@ func (l *c01Life) run() {
 	}
 	sort.Ints(ids)
 	for _, id := range ids {
+		done := true
+		for ix := 0; ix < l.recOf[id]; ix++ {
+			if !l.recFinal[fmt.Sprintf("%d/%d", id, ix)] {
+				done = false
+			}
+		}
+		l.final[id] = done
 		if !l.final[id] {
 			l.failf("loss", locus, "request %d was accepted (enqueue returned nil to a live process) but no hand-off of it ever completed with a final outcome; hand-offs started: %d; crash sites: %v", id, l.handed[id], l.crashes)
 		}
@@ -403,7 +443,7 @@ func (l *c01Life) run() {
 
 func runLife(r *simkit.Run, cfg c01Cfg, plan []crashPoint) *c01Life {
 	l := &c01Life{r: r, cfg: cfg, plan: map[int]crashPoint{}, disk: NewDisk(), payload: map[int][]byte{}, acked: map[int]bool{},
-		final: map[int]bool{}, handed: map[int]int{}}
+		final: map[int]bool{}, handed: map[int]int{}, recFinal: map[string]bool{}, recOf: map[int]int{}, callSeq: map[string]int{}, inCall: map[string][]string{}}
 	for _, cp := range plan {
 		l.plan[cp.Inc] = cp
 	}
@@ -421,6 +461,13 @@ func c01Config(tp *simkit.Tape) c01Cfg {
 	c.Cap = tp.Range(2, 6)
 	c.Consumers = tp.Range(1, 3)
 	c.Retry = tp.Chance(1, 3)
+	// the legacy batcher is the one batching option that combines with a persistent queue: hand-offs then carry
+	// records of several requests and a request may be split over several hand-offs
+	c.Batcher = tp.Chance(1, 4)
+	if c.Batcher {
+		c.BMax = int64(tp.Range(1, 3))
+		c.BMin = int64(tp.Range(0, int(c.BMax)))
+	}
 	n := tp.Range(3, 10)
 	ops := []string{"E", "Ao", "Ap", "At", "T", "Ro", "Rt"}
 	for i := 0; i < n; i++ {
@@ -456,7 +503,7 @@ func planToTape(plan []crashPoint) []int {
 }
 
 func planKey(cfg c01Cfg, plan []crashPoint) string {
-	return fmt.Sprintf("%d/%d/%v/%v|%v", cfg.Cap, cfg.Consumers, cfg.Retry, cfg.Script, plan)
+	return fmt.Sprintf("%d/%d/%v/%v/%d/%d/%v|%v", cfg.Cap, cfg.Consumers, cfg.Retry, cfg.Batcher, cfg.BMin, cfg.BMax, cfg.Script, plan)
 }
 
 func runC01(r *simkit.Run) {
@@ -559,4 +606,19 @@ var HarnessC01 = simkit.Harness{
 	Real: []string{"exporterhelper.NewLogs exporter (real logs request type and protobuf encoding)", "queue sender, obsreport sender, retry sender", "queuebatch persistent queue + async consumers"},
 	Stub: []string{"storage extension: simdisk (durable map, atomic numbered calls, crash fence)", "backend (push function parks until the script answers)"},
 	Rule: "one run = one tape-drawn script of enqueue / answer(ok|permanent|transient) / advance / graceful-restart operations; mode enumerate: the crash-free lifetime, then EVERY (storage call k, before|after) of every incarnation as a process death, and for each of those every death point of the lifetimes that follow (depth 2; depth 3 in the thorough tier for scripts <= 6 ops), each lifetime ending with a fault-free draining incarnation; mode plan: one crash plan of depth <= 4 read from the tape. evaluations = lifetimes; distinct = distinct (config, script, crash plan); non-trivial = at least one death actually fired",
+}
+
+// recordsOf lists the "req/idx" identities of the log records of a payload (from the record bodies "req-<id>/<idx>").
+func recordsOf(ld plog.Logs) []string {
+	var out []string
+	for i := 0; i < ld.ResourceLogs().Len(); i++ {
+		rl := ld.ResourceLogs().At(i)
+		for j := 0; j < rl.ScopeLogs().Len(); j++ {
+			lrs := rl.ScopeLogs().At(j).LogRecords()
+			for k := 0; k < lrs.Len(); k++ {
+				out = append(out, strings.TrimPrefix(lrs.At(k).Body().AsString(), "req-"))
+			}
+		}
+	}
+	return out
 }
